@@ -205,7 +205,15 @@ def generic_replay(rep):
     for m in rep.get("correspondence_mismatches", []):
         if m.get("request"):
             reqs.append(m["request"])
+    from . import gen
     for r in reqs:
+        if isinstance(r.get("table"), str) and isinstance(r.get("graph"), dict):
+            # replay files carry the graph instead of its 2^E-entry table: rebuild the table with the implementation
+            g = r["graph"]
+            b = run_harness([gen.graph_request(g["edges"], g["weights"], g["massive"], g["ext"], g["D"])])[0]
+            r = dict(r, table=b.get("table"))
+            r.pop("graph", None)
+            print("table rebuilt from the graph:", b.get("status"))
         print("request:", json.dumps(r)[:2000])
         print("  impl :", json.dumps(run_harness([r])[0])[:2000])
         print("  model:", json.dumps(run_driver([r])[0])[:2000])
